@@ -37,6 +37,29 @@ def c12(tier):
         seen.add(m.get("field"))
         v.add_violation(f"{m.get('field')}: expected {json.dumps(m.get('expected'))[:300]} got {json.dumps(m.get('got'))[:300]} after calls "
                         f"{json.dumps(m.get('behaviour', {}).get('calls'))[:400]}", m, {"suite": "tree", "field": m.get("field")})
+    # object paths: Path.tla (a path is a sequence of segments) against ObjectPath's string + offset + depth bookkeeping
+    pc = f'Segs = {{"a", "ab", "b"}} MaxDepth = 2 MaxOps = {3 if tier == "quick" else 4}'
+    pbeh = os.path.join(wd, "paths.txt")
+    g = tlc("Gen_Path", f"CONSTANTS {pc}\nSPECIFICATION GSpec\nINVARIANTS Emit GateOnlyLeaf\nPROPERTIES DepthStep\nCHECK_DEADLOCK FALSE\n", wd, printed_to=pbeh)
+    v.add_tlc("Path: object paths as segment sequences", g, pc)
+    if g.violation:
+        v.spec_violation("Path", g)
+    else:
+        shards, total = vlib.shard_lines(pbeh, wd, vlib.NCPU, prefix="sh_path_")
+        log(f"[C12] Gen_Path: {total} operation sequences on object paths in {g.wall:.1f}s")
+        outs = vlib.run_vh_parallel([["tree", "paths", s] for s in shards if os.path.getsize(s) > 0])
+        tot = vlib.collect(v, outs, "tree", "operating on object paths")
+        v.cov["traces_validated_against_impl"] += int(tot.get("replays", 0))
+        v.cov["evaluations"] += int(tot.get("checks", 0))
+        v.cov["distinct_nontrivial"] += int(tot.get("nontrivial", 0))
+        v.cov["path_operation_sequences"] = total
+        seen = set()
+        for m in tot.get("mismatches", []):
+            if m.get("field") in seen:
+                continue
+            seen.add(m.get("field"))
+            v.add_violation(f"{m.get('field')}: expected {json.dumps(m.get('expected'))[:300]} got {json.dumps(m.get('got'))[:300]} after "
+                            f"{json.dumps(m.get('behaviour'), ensure_ascii=False)[:400]}", m, {"suite": "tree", "field": m.get("field"), "kind": "path"})
     # the same order drives start-up and tear-down inside Net.tla (BootStep / EndLog): two-stage scenario family
     import c_net
     c_net.run_scn(v, wd, "C12", c_net.Scn("stages212", topo="T2", menu="MenuTrans", start="StartTrans", stages="Stages212", tx="TxZero",
@@ -63,6 +86,6 @@ def c12_replay(path):
     p = os.path.join(wd, "beh.txt")
     with open(p, "w") as fh:
         fh.write(json.dumps(d.get("behaviour")) + "\n")
-    out = vlib.run_vh_parallel([["tree", "replay", p]])[0]
+    out = vlib.run_vh_parallel([["tree", "paths" if isinstance(d.get("behaviour"), list) else "replay", p]])[0]
     log(json.dumps(out, ensure_ascii=False)[:3000])
     return 1 if out.get("crash") or out.get("hang") or out.get("mismatch_count") else 0
